@@ -349,6 +349,9 @@ class NetworkMixin(RadioMixin):
                 or not is_address_valid(self.frame_buf.header.from_node)
             ):
                 # print("discarding frame due to invalid network addresses.")
+                # frame_buf may now hold the discarded frame, so a message type
+                # remembered from a previous frame no longer describes it
+                ret_val = 0
                 continue
 
             # print(
